@@ -166,13 +166,13 @@ Walk ==
                          !.st = IF p.next.kind = "none" THEN "done" ELSE "paging"]
 \* MC of writes: after a finished walk from the first page a write may happen and the listing
 \* is walked again from the first page (the number of writes per behaviour is bounded; only
-\* walks with the default page size continue, to keep the state space small)
+\* walks with the default page size over listings of at most 4 items continue, to keep the
+\* state space small)
 MCWrites == IF Scope >= 2 THEN 2 ELSE 1
 MCOps == { [kind |-> k, key |-> key, am |-> am] : k \in WriteKinds, key \in MCKeys, am \in BOOLEAN }
 WriteThenWalkAgain ==
-  /\ c.st = "done" /\ c.start = NoTok /\ c.size = 0 /\ c.writes < MCWrites
+  /\ c.st = "done" /\ c.start = NoTok /\ c.size = 0 /\ c.writes < MCWrites /\ Len(c.items) <= 4
   /\ \E op \in MCOps :
-       /\ Cardinality(Apply(Range(c.items), op)) <= NMax
        /\ (op.am => op.kind = "delete")
        /\ c' = [c EXCEPT !.items = Sorted(Apply(Range(c.items), op)), !.writes = @ + 1, !.st = "paging",
                           !.tok = NoTok, !.pages = <<>>, !.totals = <<>>]
